@@ -747,6 +747,7 @@ func realPeerMultiSign(c *ctx) {
 		var seen [][]byte
 		var want [][]byte
 		var sigItems []*citem
+		var sps, kids, sigv [][]byte
 		ok := true
 		// signers use the same algorithm; most of the time distinct protected forms, sometimes the same form twice
 		var used []int
@@ -782,6 +783,7 @@ func realPeerMultiSign(c *ctx) {
 				break
 			}
 			verifiers = append(verifiers, recVerifier{v, &seen})
+			sps, kids, sigv = append(sps, sp), append(kids, kid), append(sigv, sig)
 			sigItems = append(sigItems, &citem{kind: 4, l: []*citem{{kind: 2, b: sp}, {kind: 5, m: [][2]*citem{{{kind: 0, n: 4}, {kind: 2, b: kid}}}}, {kind: 2, b: sig}}})
 		}
 		if !ok {
@@ -812,6 +814,45 @@ func realPeerMultiSign(c *ctx) {
 				c.fail(failure{Op: "real-peer-sign", What: fmt.Sprintf("signature %d was verified over bytes other than the Sig_structure of that signer's received protected bytes", j), Input: line,
 					Observed: short(fmt.Sprintf("%x", seen[j])), Expected: short(fmt.Sprintf("%x", want[j])), Case: line, Theorem: "C04_sign_verifier_recomputes_from_wire_bytes"})
 				break
+			}
+		}
+		// a genuine entry repeated with OTHER protected bytes (another valid encoding of the same map, or a map with one more
+		// parameter) under the same kid and the same signature octets, placed after, before or instead of the genuine one: the
+		// signature does not cover those bytes, so the message must be refused wherever the entry stands
+		{
+			j := c.r.intn(nsig)
+			var other []byte
+			for _, f := range forms {
+				if !bytes.Equal(f, sps[j]) {
+					other = f
+					break
+				}
+			}
+			if other != nil {
+				forged := &citem{kind: 4, l: []*citem{{kind: 2, b: other}, {kind: 5, m: [][2]*citem{{{kind: 0, n: 4}, {kind: 2, b: kids[j]}}}}, {kind: 2, b: sigv[j]}}}
+				for pos, where := range []string{"appended", "right after the genuine entry", "before the genuine entry", "instead of the genuine entry"} {
+					var items []*citem
+					switch pos {
+					case 0:
+						items = append(append(items, sigItems...), forged)
+					case 1:
+						items = append(append(append(items, sigItems[:j+1]...), forged), sigItems[j+1:]...)
+					case 2:
+						items = append(append(append(items, sigItems[:j]...), forged), sigItems[j:]...)
+					default:
+						items = append(append(append(items, sigItems[:j]...), forged), sigItems[j+1:]...)
+					}
+					fm := (&citem{kind: 6, n: 98, v: &citem{kind: 4, l: []*citem{{kind: 2, b: bodyProt}, {kind: 5}, {kind: 2, b: payload}, {kind: 4, l: items}}}}).enc(nil)
+					var ferr error
+					fp, _ := catch(func() { _, ferr = cose.VerifySignMessage[[]byte](verifiers, fm, ext) })
+					c.eval()
+					c.count(fmt.Sprintf("peer COSE_Sign forged entry %s accepted=%v", where, ferr == nil && !fp))
+					if ferr == nil && !fp {
+						c.fail(failure{Op: "real-peer-sign", What: "a COSE_Sign message verified although it holds an entry whose protected bytes its signature does not cover (" + where + ")",
+							Input:    short(fmt.Sprintf("realseq-peersign-forged|alg=%d|signers=%d|entry %d repeated with protected %x instead of %x|%x|ext=%x", alg, nsig, j, other, sps[j], fm, ext)),
+							Observed: "verified", Expected: "refused", Case: line, Theorem: "C02_sign_binds"})
+					}
+				}
 			}
 		}
 	}
